@@ -390,7 +390,7 @@ def gen_held(r):
         md = d["mods"][mi]
         names = dict(port=[p[0] for p in md["ports"]], sig=[g[0] for g in md["sigs"]],
                      inst=[x["name"] for x in md["insts"] if x["n"] == 0], array=[x["name"] for x in md["insts"] if x["n"] > 0])
-        kind = r.choice(["inst", "inst", "inst", "array", "sig", "port"])
+        kind = r.choice(["inst", "inst", "inst", "array", "array", "sig", "port"])
         if not names[kind]:
             continue
         old = r.choice(names[kind])
